@@ -1,6 +1,6 @@
 """C03 — convergence: the anchored string-level mechanisms are fixed points."""
 from mirsym import models_typst as T
-from . import kern, comments
+from . import kern, comments, lists
 
 EXPLANATION = (
     "Bounded symbolic execution (MIR->SMT, z3) of two of the three mechanisms the property is anchored in; the end-to-end statement "
@@ -8,7 +8,9 @@ EXPLANATION = (
     "strip(strip(s)) = strip(s) for every UTF-8 string of up to N code points. (2) pretty/comment.rs (block_comment, get_comment_style, "
     "get_follow_leading, align_multiline, align_multiline_simple): for every block comment '/*' + up to M code points + '*/' and each "
     "start column in the stated set, the comment as laid out by align()/hang(1) and post-processed is mapped by a second "
-    "block_comment pass to the same text and the same style. Multiline-flavour / attach-detach / boundary reproduction (mechanism 1 of "
+    "block_comment pass to the same text and the same style. (3) ListStylist with every ListStyle the crate builds over item/comma/"
+    "whitespace sequences of up to K nodes: a list laid out on one line holds no doubled blank and no blank before a separator, i.e. "
+    "kept blank lines leave no trace when the list is folded. Multiline-flavour / attach-detach / boundary reproduction (mechanism 1 of "
     "the anchors) is outside the claim.")
 
 
@@ -21,5 +23,8 @@ def run(S):
     kern.strip_idempotent(S, N)
     found = comments.explore_block(S, M, cols, want=('C03',))
     comments.report(S, 'C03', found)
-    S.assumptions += comments.ASSUMPTIONS
+    # one-line list layouts are fixed points (kept blank lines must not leave traces when the list is folded)
+    f3 = lists.explore(S, 4 if S.tier == 'quick' else 5, want=('C03',), cats=('item', 'comma', 'space'), between_items=True)
+    lists.report(S, 'C03', f3)
+    S.assumptions += comments.ASSUMPTIONS + lists.ASSUMPTIONS
     return S.finish(level='other', explanation=EXPLANATION, trusted=['mirsym encoder', 'std string contracts', 'pretty align/hang semantics'])
